@@ -953,3 +953,152 @@ def buckets(case, ans):
         elif k == "del" and len(cur) < len(prev):
             out.append(f"frame:del:{ign}")
     return out
+
+
+# ================================================================== two live instances (stream `pair`, see props/pairlib.py)
+# Appended as wrappers around the functions above, so that the single-instance streams and their seeds stay as they were.
+# A pair case: two configs from one template, BOTH parsed first (same or different syntax -- hence indent width --,
+# ignore_blank_lines, auto_commit); an edit history on A with a look at B before every operation and after the last
+# (texts, line numbers, links, family views, two recursive searches: B must not change), then a history on B with the same
+# watch on A.  Each history is run by editlib.run_history itself, judged by the oracle above on its own case and
+# compared with the model's answer for that history alone; every look is compared with the model's tree / search answer
+# for the texts the watched instance holds.
+from props import pairlib as PL  # noqa: E402
+
+
+def pair_ops(rng, lines, syntax, auto, ign):
+    r = rng.random()
+    if r < 0.45:
+        ops = E.rand_ops(rng, rng.choice([1, 2, 3, 4]), auto)
+    elif r < 0.8:
+        ops = [directed_ops(rng, lines, E.width_of(syntax), ign) for _ in range(rng.choice([1, 2, 3]))]
+    else:
+        ops = rand_form_ops(rng, rng.choice([1, 2, 3]), auto)
+    return ops + [["commit"]]
+
+
+def mk_pair(a, b, ops_a, ops_b, muts=(), origin="pair"):
+    """a, b: dict(syntax, ignore_blank, auto_commit, lines)"""
+    hist = [E.mk_case(c["syntax"], c["ignore_blank"], c["auto_commit"], c["lines"], ops, origin) for c, ops in ((a, ops_a), (b, ops_b))]
+    cfgs = [dict(c, delims=None) for c in (a, b)]
+    return {"pair": True, "cfgs": cfgs, "hist": hist, "mutations": list(muts), "_origin": origin, "req": None,
+            "plan": [0, 1], "ops": ops_a, "lines": a["lines"], "syntax": a["syntax"], "auto_commit": a["auto_commit"],
+            "ignore_blank": a["ignore_blank"], "delims": None, "factory": False}
+
+
+def rand_pair(rng):
+    syntax = rng.choice(["ios", "ios", "nxos", "asa"])
+    ign = rng.random() < 0.3
+    r = rng.random()
+    lines = rng.choice(seeds()) if r < 0.4 else dup_config(rng) if r < 0.55 else plain_config(rng, ign and rng.random() < 0.5)
+    a = {"syntax": syntax, "ignore_blank": ign, "auto_commit": rng.random() < 0.65, "lines": list(lines)}
+    if rng.random() < 0.15 or not lines:
+        blines, muts = list(lines), ["identical"]
+    else:
+        blines, muts = PL.variant(rng, lines, ["a", "b", "Eth1", "Eth10", "! c", "n"])
+    b = {"syntax": syntax if rng.random() < 0.55 else rng.choice(["ios", "nxos", "nxos", "asa"]),
+         "ignore_blank": ign if rng.random() < 0.8 else not ign,
+         "auto_commit": a["auto_commit"] if rng.random() < 0.7 else not a["auto_commit"], "lines": blines}
+    ops_a = pair_ops(rng, a["lines"], a["syntax"], a["auto_commit"], a["ignore_blank"])
+    if rng.random() < 0.5:
+        ops_b = [list(o) for o in ops_a]         # the same calls on the corresponding lines of the other instance
+    else:
+        ops_b = pair_ops(rng, b["lines"], b["syntax"], b["auto_commit"], b["ignore_blank"])
+    return mk_pair(a, b, ops_a, ops_b, muts)
+
+
+def pair_cases(rng, tier):
+    for _ in range({"quick": 450, "thorough": 15000, "search": 300}[tier]):
+        yield rand_pair(rng)
+
+
+def impl_pair(case):
+    return PL.run_history_pair(T, case["cfgs"], case["hist"], E.run_history, T.parse_impl)
+
+
+def pair_neighbours(case, rng):
+    a, b = case["cfgs"]
+    for _ in range(100):
+        lines, muts = PL.variant(rng, a["lines"], ["a", "b", "Eth1", "! c"])
+        ops_a = list(case["hist"][0]["ops"])
+        if len(ops_a) > 2 and rng.random() < 0.5:
+            del ops_a[rng.randrange(len(ops_a) - 1)]
+        yield mk_pair(a, dict(b, lines=lines), ops_a, list(case["hist"][1]["ops"]), muts)
+
+
+def _pair_describe(case):
+    keys = ("syntax", "ignore_blank", "auto_commit", "lines", "ops")
+    return {"two_live_instances": "both configs are parsed first; history A runs with a look at B before every operation and after the last, "
+                                  "then history B with the same watch on A",
+            "A": {k: case["hist"][0][k] for k in keys}, "B": {k: case["hist"][1][k] for k in keys},
+            "B_differs_from_A_by": case.get("mutations")}
+
+
+def _pair_buckets(case, ans):
+    out = PL.buckets(case) + ["pair:same-ops:%d" % (case["hist"][0]["ops"] == case["hist"][1]["ops"]),
+                              "pair:width:%d-%d" % tuple(E.width_of(c["syntax"]) for c in case["cfgs"]),
+                              "pair:auto:%d-%d" % tuple(c["auto_commit"] for c in case["cfgs"])]
+    parts = {label: text for _, label, text in (PL.split_labelled(ans) or [])}
+    for i, label in enumerate(("hA", "hB")):
+        if label in parts:
+            out += ["pair:" + b for b in _single["buckets"](case["hist"][i], parts[label]) if b.startswith("op:")]
+    return out
+
+
+_single = {"cases": cases, "impl": impl, "oracle": oracle, "neighbours": neighbours, "known_id": known_id, "nontrivial": nontrivial,
+           "describe": describe, "buckets": buckets}
+
+
+def cases(rng, tier):  # noqa: F811
+    yield from _single["cases"](rng, tier)
+    if PL.enabled():
+        yield from pair_cases(rng, tier)
+
+
+def impl(case):  # noqa: F811
+    return impl_pair(case) if case.get("pair") else _single["impl"](case)
+
+
+def oracle(case, ans):  # noqa: F811
+    return PL.history_oracle(case, ans, _single["oracle"]) if case.get("pair") else _single["oracle"](case, ans)
+
+
+def compare(case, impl_ans, model_ans):
+    return PL.compare(impl_ans, model_ans, PL.history_compare) if case.get("pair") else impl_ans == model_ans
+
+
+def neighbours(case, rng):  # noqa: F811
+    return pair_neighbours(case, rng) if case.get("pair") else _single["neighbours"](case, rng)
+
+
+def known_id(case, failure):  # noqa: F811
+    return PL.history_known_id(case, failure, _single["known_id"]) if case.get("pair") else _single["known_id"](case, failure)
+
+
+def nontrivial(case):  # noqa: F811
+    if case.get("pair"):
+        return all(_single["nontrivial"](h) for h in case["hist"])
+    return _single["nontrivial"](case)
+
+
+def describe(case):  # noqa: F811
+    return _pair_describe(case) if case.get("pair") else _single["describe"](case)
+
+
+def buckets(case, ans):  # noqa: F811
+    return _pair_buckets(case, ans) if case.get("pair") else _single["buckets"](case, ans)
+
+
+RULE += (" PAIR STREAM (two LIVE instances; props/pairlib.py, channel `pair`): 450 (quick) cases hold two configs from ONE template (seed / "
+         "duplicate-text / plain configs; B = A with children re-texted / re-indented / commented / swapped / inserted / deleted / moved, 15 % "
+         "identical), parsed with the same or a different syntax (hence indent width 1 / 2), ignore_blank_lines and auto_commit. BOTH are "
+         "parsed first; a history (random / directed / input-form operations, then commit) runs on A with a look at B before every operation "
+         "and after the last -- texts, line numbers, links, the seven family views, two recursive searches --, then a history on B (half of "
+         "the time the same calls) with the same watch on A. The histories are run by editlib.run_history itself (handed the live instance "
+         "instead of a fresh parse), judged by the oracle above on their own case and compared with the model's answer for that history "
+         "alone; every look is compared with the model's tree / search answer for the texts the watched instance holds, must not change "
+         "while only the other instance is edited, and must be the state the instance's own history starts / ends with.")
+LEVEL_NOTE += (" Two live instances: the edit machine is a function of one history (channel `pair` only carries ordinary requests), so 'an "
+               "edit of A changes nothing of B and is not influenced by B' holds for the model by construction and is MEASURED for the code by "
+               "the pair stream (seeded C06e -- an lru_cache on the indent width keyed by the line -- and hand mutations of all_children / "
+               "family_endpoint memos shared between instances are reported by it).")
